@@ -14,6 +14,7 @@ import (
 	"fmt"
 	"hash"
 	"math/big"
+	"math/rand/v2"
 	"os"
 	"os/exec"
 
@@ -242,6 +243,32 @@ func mapCatalogue() []*big.Int {
 	return us
 }
 
+// pipeHalves: 48-byte big-endian strings whose value mod p is a special input of the map (0, +-1, +-sqrt(-1), the roots
+// of the exceptional-case equations), each in several representatives (u, u+p, u + the largest multiple of p that fits),
+// plus the extreme strings and a few PRNG values.
+func pipeHalves(rng *rand.Rand) [][]byte {
+	be48 := func(v *big.Int) []byte { return v.FillBytes(make([]byte, 48)) }
+	top := new(big.Int).Lsh(big.NewInt(1), 384)
+	kmax := new(big.Int).Div(new(big.Int).Sub(top, big.NewInt(1)), ref.P)
+	var out [][]byte
+	cat := mapCatalogue()
+	specials := []*big.Int{cat[0], cat[2], cat[3]} // 0, 1, -1
+	specials = append(specials, cat[20:]...)        // +-sqrt(-1) and the exceptional roots
+	for _, u := range specials {
+		out = append(out, be48(u), be48(new(big.Int).Add(u, ref.P)))
+		hi := new(big.Int).Add(u, new(big.Int).Mul(kmax, ref.P))
+		if hi.Cmp(top) >= 0 {
+			hi.Sub(hi, ref.P)
+		}
+		out = append(out, be48(hi))
+	}
+	out = append(out, bytes.Repeat([]byte{0xff}, 48))
+	for i := 0; i < 3; i++ {
+		out = append(out, mon.Bytes(rng, 48))
+	}
+	return out
+}
+
 func runCase(r *mon.Run, c Case) {
 	switch c.Kind {
 	case "xmd":
@@ -252,6 +279,8 @@ func runCase(r *mon.Run, c Case) {
 		suites(r, c)
 	case "map":
 		mapInput(r, c)
+	case "pipe":
+		pipeline(r, c)
 	}
 }
 
@@ -323,6 +352,18 @@ func main() {
 	}
 	for i := 0; i < r.Pick(3000, 100000); i++ {
 		cases = append(cases, Case{Kind: "map", U: mon.Hex(mon.Bytes(rng, 32))})
+	}
+	// the pipeline after message expansion on chosen uniform bytes: every pair of 48-byte encodings drawn from
+	// {exceptional and special field elements} x {representatives u, u+p, u+kp up to 2^384} in both slots, plus PRNG
+	halves := pipeHalves(rng)
+	for _, h0 := range halves {
+		cases = append(cases, Case{Kind: "pipe", U: mon.Hex(h0)})
+		for _, h1 := range halves {
+			cases = append(cases, Case{Kind: "pipe", U: mon.Hex(append(append([]byte{}, h0...), h1...))})
+		}
+	}
+	for i := 0; i < r.Pick(1500, 60000); i++ {
+		cases = append(cases, Case{Kind: "pipe", U: mon.Hex(mon.Bytes(rng, 48+48*(i%2)))})
 	}
 	r.Observe("cases", len(cases))
 	r.Parallel(len(cases), func(i int) { runCase(r, cases[i]) })
